@@ -352,6 +352,24 @@ func (x *Exec) dispatch(st *State, fr *Frame, c *callCtx) {
 		in(x, st, fr, c)
 		return
 	}
+	// "abstract-calls <regexp>": direct calls of the unit to matching functions are not executed and no
+	// contract is applied: the result is arbitrary and the heap is left alone. What the unit then proves
+	// is only what it asserts about the calls themselves (site call assertions) and its own control flow;
+	// listed in evidence as ABSTRACTED.
+	if x.contract != nil && len(st.frames) > 0 && fr == st.frames[0] {
+		for _, d := range x.contract.Directives["abstract-calls"] {
+			if re, err := regexp.Compile(strings.TrimSpace(d)); err == nil && re.MatchString(fn.Name()) {
+				x.notes["ABSTRACTED: call to "+c.name+" (arguments checked by site assertions only; effects not modelled)"] = true
+				var v Value
+				if c.ret != nil {
+					x.callCounter++
+					v = x.symbolic(st, c.ret.Type(), fmt.Sprintf("abstract.%s!%d", fn.Name(), x.callCounter))
+				}
+				x.finish(st, fr, c, v)
+				return
+			}
+		}
+	}
 	key := x.prog.funcKey(fn)
 	contract := x.prog.contracts.byKey[key]
 	recursive := x.onStack(st, fn)
@@ -402,7 +420,8 @@ func allowInline(name string) bool {
 }
 
 func (x *Exec) pushFrame(st *State, fn *ssa.Function, args []Value, ret ssa.Value, isDefer bool) *Frame {
-	nf := &Frame{fn: fn, env: map[ssa.Value]Value{}, block: fn.Blocks[0], cut: map[*ssa.BasicBlock]*loopCut{}, retInstr: ret}
+	x.frameCounter++
+	nf := &Frame{id: x.frameCounter, fn: fn, env: map[ssa.Value]Value{}, block: fn.Blocks[0], cut: map[*ssa.BasicBlock]*loopCut{}, retInstr: ret}
 	for i, p := range fn.Params {
 		if i < len(args) {
 			nf.env[p] = args[i]
